@@ -74,6 +74,13 @@ class Unit:
             self._cps = [self._mk(s) for s in self.bi.child_polls()]
         return self._cps
 
+    @property
+    def cps_unchecked(self):
+        """child-poll sites for rules that do not place steps on paths (who-may-call audits): no closure check"""
+        if self._cps is not None:
+            return self._cps
+        return [self._mk(s) for s in self.bi.child_polls()]
+
     def _closure_protocol_steps(self):
         """A scan written through a closure-taking iterator adapter (`indexer.iter().find_map(|i| .. fut.poll(cx) ..)`,
         `futures.by_ref().find(|(i, _)| .. readiness.clear_ready(*i))`) puts protocol steps into a closure body that the
